@@ -28,16 +28,24 @@ EXPLANATION = ('C17: two workers (optionally with a helper child that keeps the 
                'restarted by a kill request}; oracle per (pid, channel) on byte streams, handler bookkeeping, spinning and the fake fd table. ')
 
 SIZES = (1, 1023, 1024, 1025, 2049, 4096)
-KINDS = ('write', 'turn', 'close', 'die', 'kill_sibling', 'write_both', 'kill_async')
+KINDS = ('write', 'turn', 'close', 'die', 'kill_sibling', 'write_both', 'kill_async', 'swap_stream')
 
 
 class Collector(object):
-    def __init__(self, channel):
+    def __init__(self, channel, items=None):
         self.channel = channel
-        self.items = []
+        self.items = [] if items is None else items       # a replacement stream appends to the same record
+        self.closed = False
+        self.after_close = 0
 
     def __call__(self, data):
+        if self.closed:
+            self.after_close += 1                           # delivered to a stream that is no longer the configured one
+            return
         self.items.append((data['pid'], data['name'], bytes(data['data'])))
+
+    def close(self):
+        self.closed = True
 
 
 def c17_streams(k1: int, a1: int, b1: int, k2: int, a2: int, b2: int, k3: int, a3: int, b3: int, k4: int, a4: int, b4: int) -> bool:
@@ -74,6 +82,7 @@ def c17_streams(k1: int, a1: int, b1: int, k2: int, a2: int, b2: int, k3: int, a
         w.boot([wa], check_delay=-1)
         seq = 0
         ok = True
+        retired = []
         try:
             for (kind, a, b) in evs:
                 kd = KINDS[kind]
@@ -112,6 +121,18 @@ def c17_streams(k1: int, a1: int, b1: int, k2: int, a2: int, b2: int, k3: int, a
                     w.run_for(0.002)
                     w.check_now()
                     w.run_for(0.3)
+                elif kd == 'swap_stream':
+                    # the stdout stream is reconfigured at run time (`set <watcher> stdout_stream.*`): the old stream object is
+                    # closed, running workers keep writing and their output belongs to the new one
+                    w.run_for(0.3)
+                    old_out = wa.stdout_stream
+                    fresh = Collector('stdout', items=out.items)
+                    retired.append(old_out)
+                    try:
+                        wa.set_opt('stdout_stream.stream', fresh)
+                    except Exception as e_:   # noqa -- refused (conflict): nothing changed
+                        retired.pop()
+                    w.run_for(0.05)
                 elif kd == 'kill_sibling' and live:
                     w.run_for(0.3)
                     p = live[a % len(live)]
@@ -129,6 +150,10 @@ def c17_streams(k1: int, a1: int, b1: int, k2: int, a2: int, b2: int, k3: int, a
         if table.blocked_reads:
             rt.note('a read on a worker pipe blocked the loop (%d times)', table.blocked_reads)
             ok = False
+        for old_ in retired:
+            if getattr(old_, 'after_close', 0):
+                rt.note('%d chunk(s) were delivered to a stream object that had been replaced and closed', old_.after_close)
+                ok = False
         # per (pid, channel): complete, in order, once, correctly labelled
         got = {}
         for coll in (out, err):
